@@ -194,6 +194,10 @@ def view_of(name):
         return View(b, p=lits)
     if b in ("bytes", "require") and len(args) == 1 and lits[0] is not None:
         return View(b, p=lits)
+    if b in ("rep_string", "rep_one_min_max") and args and all(v is not None for v in lits):
+        return View(b, p=lits)
+    if b == "separated_seq" and args:
+        return View(b, kids=args)
     if b == "everything":
         return View("everything")
     if b == "if_must" and internal:
